@@ -1,39 +1,56 @@
-//! SORT tracker correspondence harness (Sort and BatchSort of the real crate).
+//! SORT tracker correspondence harness (Sort, BatchSort, VisualSort and BatchVisualSort of the real crate).
 //!
-//!   tracker gen --seed S --n N [--tier quick|thorough]   prints N history specs
-//!   tracker run --file F                                  executes the specs of F on the real code
+//!   tracker gen --seed S --n N [--tier quick|thorough] [--kinds sort|visual]   prints N history specs
+//!   tracker run --file F                                                        executes the specs of F on the real code
 //!
 //! Spec format (one item per line):
-//!   hist k=<k> tracker=<sort|batch> shards=.. vshards=.. history=.. max_idle=.. metric=<iou:BITS|maha>
-//!        minconf=<BITS> constraints=<-|gap:BITS,..|gap:BITS,..>
+//!   hist k=<k> tracker=<sort|batch|visual|batchvisual> shards=.. vshards=.. history=.. max_idle=..
+//!        metric=<iou:BITS|maha> minconf=<BITS> constraints=<-|gap:BITS,..|gap:BITS,..>
+//!        and, only for tracker=visual|batchvisual, appended in this order:
+//!        vis=<euc|cos>:<BITS> votes=<n> minlen=<n> maxobs=<n> quse=<BITS> qcol=<BITS>
 //!   op predict scene=<s> dets=<DET>;<DET>...
 //!   op batch scenes=<s>@<DET>;<DET>|<s>@...
 //!   op skip scene=<s> n=<n> | op wasted | op idle scene=<s> | op clear | op setaw p=<p>
 //!   op astats | op wstats | op epoch scene=<s>
 //!   end
 //!   DET := uid:xc:yc:angle:aspect:height:conf:custom   (f32 as decimal bit patterns; angle/custom may be `n`)
+//!   DET (visual kinds) := uid:xc:yc:angle:aspect:height:conf:custom:q:feat   (q = BITS or `n`; feat = `n` or
+//!        the feature vector as `/`-separated BITS)
 //!
 //! Result format: the hist line, then per op `op <i> <text>`, for predict/batch the oracle table
 //! (`tab <uid> <tid>,<W>,<D2RBITS> ...`, computed before the call from the stored tracks with the
-//! implementation's own metric), one `res ...` line, then `main ...` / `wst ...` (physical stores).
-use std::collections::{HashMap, HashSet};
+//! implementation's own metric; for the visual kinds W is the positional weight of the first observation of the
+//! stored track that yields one, else `v` if some observation yields a feature distance, else `n`), one `res ...`
+//! line, then `main ...` / `wst ...` (physical stores).
+use std::collections::{HashMap, HashSet, VecDeque};
 use std::io::Write;
 use std::sync::atomic::{AtomicU64, Ordering};
+use std::sync::Arc;
 
 use similari::prelude::{
     BatchSort, NoopNotifier, ObservationBuilder, PositionalMetricType, Sort, SortTrack,
-    SpatioTemporalConstraints, Universal2DBox,
+    SpatioTemporalConstraints, Universal2DBox, VisualSort, VisualSortMetricType, VisualSortObservation,
+    VisualSortOptions,
 };
-use similari::track::{MetricQuery, ObservationMetric, Track};
+use similari::track::utils::FromVec;
+use similari::track::{
+    Feature, MetricQuery, ObservationAttributes, ObservationMetric, Track, TrackAttributes,
+};
 use similari::trackers::batch::PredictionBatchRequest;
 use similari::trackers::sort::metric::SortMetric;
 use similari::trackers::sort::{SortAttributes, SortAttributesOptions, SortAttributesUpdate};
 use similari::trackers::tracker_api::TrackerAPI;
+use similari::trackers::visual_sort::batch_api::BatchVisualSort;
+use similari::trackers::visual_sort::metric::{VisualMetric, VisualMetricOptions};
+use similari::trackers::visual_sort::observation_attributes::VisualObservationAttributes;
+use similari::trackers::visual_sort::track_attributes::{VisualAttributes, VisualAttributesUpdate};
 use similari_verif_harness::*;
 
 type STrack = Track<SortAttributes, SortMetric, Universal2DBox, NoopNotifier>;
-type Api =
-    dyn TrackerAPI<SortAttributes, SortMetric, Universal2DBox, SortAttributesOptions, NoopNotifier>;
+type VTrack = Track<VisualAttributes, VisualMetric, VisualObservationAttributes, NoopNotifier>;
+type DynApi<TA, M, OA> = dyn TrackerAPI<TA, M, OA, SortAttributesOptions, NoopNotifier>;
+type Api = DynApi<SortAttributes, SortMetric, Universal2DBox>;
+type VApi = DynApi<VisualAttributes, VisualMetric, VisualObservationAttributes>;
 type Key = (u32, u32, u32, u32, u32, u32);
 
 // ---------------------------------------------------------------------------------------------
@@ -85,11 +102,16 @@ fn key_of(b: &Universal2DBox) -> Key {
     )
 }
 
+/// appearance part of a detection of the visual kinds: (feature quality, feature vector)
+type VisPart = (Option<f32>, Option<Vec<f32>>);
+
 #[derive(Clone, Debug)]
 struct Det {
     uid: u64,
     b: BoxSpec,
     custom: Option<i64>,
+    /// Some only in the 10-field form of the visual kinds
+    vis: Option<VisPart>,
 }
 
 fn fmt_custom(c: Option<i64>) -> String {
@@ -100,7 +122,7 @@ fn fmt_custom(c: Option<i64>) -> String {
 }
 
 fn fmt_det(d: &Det) -> String {
-    format!(
+    let base = format!(
         "{}:{}:{}:{}:{}:{}:{}:{}",
         d.uid,
         f32b(d.b.xc),
@@ -113,7 +135,22 @@ fn fmt_det(d: &Det) -> String {
         f32b(d.b.height),
         f32b(d.b.conf),
         fmt_custom(d.custom)
-    )
+    );
+    match &d.vis {
+        None => base,
+        Some((q, feat)) => format!(
+            "{}:{}:{}",
+            base,
+            match q {
+                None => "n".to_string(),
+                Some(q) => f32b(*q),
+            },
+            match feat {
+                None => "n".to_string(),
+                Some(v) => v.iter().map(|x| f32b(*x)).collect::<Vec<_>>().join("/"),
+            }
+        ),
+    }
 }
 
 fn fmt_dets(ds: &[Det]) -> String {
@@ -148,6 +185,7 @@ const W_CROWDED: [u64; 9] = [88, 2, 2, 2, 1, 1, 1, 2, 1];
 const W_LIFECYCLE: [u64; 9] = [38, 12, 11, 11, 6, 6, 5, 6, 5];
 const W_CONSTRAINTS: [u64; 9] = [66, 8, 5, 6, 2, 3, 3, 3, 4];
 
+#[derive(Clone)]
 struct Obj {
     x: f32,
     y: f32,
@@ -353,7 +391,7 @@ impl Gen {
             let signed = if self.rng.chance(1, 2) { uid as i64 } else { -(uid as i64) };
             let want_none = !p.force_some && !self.rng.chance(8, 10);
             let custom = if want_none && self.none_keys.insert(p.b.key()) { None } else { Some(signed) };
-            res.push(Det { uid, b: p.b, custom });
+            res.push(Det { uid, b: p.b, custom, vis: None });
         }
         res
     }
@@ -519,6 +557,478 @@ fn gen_history(seed: u64, k: usize, thorough: bool) -> String {
 }
 
 // ---------------------------------------------------------------------------------------------
+// generator for the visual kinds (`gen --kinds visual`)
+// ---------------------------------------------------------------------------------------------
+
+const V_SCENE_IDS: [u64; 4] = [0, 1, 2, 7];
+const VIS_EUC: [f32; 3] = [0.5, 1.0, 2.0];
+const VIS_COS: [f32; 2] = [0.2, 0.5];
+const QUSE: [f32; 2] = [0.0, 0.3];
+const QCOL: [f32; 2] = [0.0, 0.5];
+const QUALITIES: [f32; 4] = [0.2, 0.5, 0.9, 1.0];
+const FEAT_DIM: usize = 4;
+const GRID: f32 = 0.25;
+
+const VFAM_GENERAL: u64 = 0;
+const VFAM_LOOKALIKE: u64 = 1;
+const VFAM_LIFECYCLE: u64 = 2;
+const VFAM_CONSTRAINTS: u64 = 3;
+const VFAM_LONG: u64 = 4;
+const VFAM_MISSING: u64 = 5;
+
+const W_LOOKALIKE: [u64; 9] = [80, 3, 3, 4, 2, 2, 2, 2, 2];
+const W_LONG: [u64; 9] = [88, 0, 0, 6, 0, 0, 0, 0, 6];
+
+#[derive(Clone)]
+struct VObj {
+    o: Obj,
+    base: Vec<f32>,
+}
+
+struct VPreDet {
+    b: BoxSpec,
+    force_some: bool,
+    q: Option<f32>,
+    feat: Option<Vec<f32>>,
+}
+
+struct VWorld {
+    scene: u64,
+    objs: Vec<VObj>,
+    /// family B: the appearance shared by the lookalikes of this scene
+    shared: Vec<f32>,
+}
+
+struct VGen {
+    rng: Rng,
+    family: u64,
+    rotated: bool,
+    anchors: Vec<(f32, f32)>,
+    next_uid: u64,
+    none_keys: HashSet<Key>,
+}
+
+fn pz(x: f32) -> f32 {
+    // never -0.0
+    if x == 0.0 {
+        0.0
+    } else {
+        x
+    }
+}
+
+fn base_feature(rng: &mut Rng) -> Vec<f32> {
+    let mut v = vec![];
+    for _ in 0..FEAT_DIM {
+        v.push(pz(rng.dyadic(-8, 8, 2)));
+    }
+    if v.iter().all(|x| *x == 0.0) {
+        v[0] = 1.0;
+    }
+    v
+}
+
+impl VGen {
+    fn feature(&mut self, base: &[f32], forced: bool) -> Option<Vec<f32>> {
+        let p_none = if self.family == VFAM_MISSING { 60 } else { 15 };
+        if !forced && self.rng.chance(p_none, 100) {
+            return None;
+        }
+        if self.rng.chance(3, 10) {
+            return Some(base.to_vec());
+        }
+        let mut v = base.to_vec();
+        for x in v.iter_mut() {
+            if self.rng.chance(1, 2) {
+                *x = pz(*x + self.rng.dyadic(-2, 2, 3));
+            }
+        }
+        Some(v)
+    }
+
+    fn quality(&mut self) -> Option<f32> {
+        if self.rng.chance(15, 100) {
+            None
+        } else if self.family == VFAM_MISSING && self.rng.chance(6, 10) {
+            Some(0.2)
+        } else {
+            Some(*self.rng.pick(&QUALITIES))
+        }
+    }
+
+    fn spawn(&mut self, near: (f32, f32), shared: &[f32]) -> VObj {
+        let height = *self.rng.pick(&HEIGHTS);
+        let aspect = *self.rng.pick(&ASPECTS);
+        let (ox, oy) = (self.rng.dyadic(-160, 160, 2), self.rng.dyadic(-160, 160, 2));
+        let (vx, vy) = if self.family == VFAM_CONSTRAINTS && self.rng.chance(1, 2) {
+            let sx = if self.rng.chance(1, 2) { 1.0 } else { -1.0 };
+            let sy = if self.rng.chance(1, 2) { 1.0 } else { -1.0 };
+            (sx * self.rng.dyadic(40, 160, 2), sy * self.rng.dyadic(0, 120, 2))
+        } else {
+            (self.rng.dyadic(-8, 8, 2), self.rng.dyadic(-8, 8, 2))
+        };
+        let angle = if self.rotated && self.rng.chance(7, 10) { Some(*self.rng.pick(&ANGLES)) } else { None };
+        let conf = if self.rng.chance(8, 10) { 1.0 } else { *self.rng.pick(&LOW_CONF) };
+        let base = if self.family == VFAM_LOOKALIKE && self.rng.chance(6, 10) {
+            shared.to_vec()
+        } else {
+            base_feature(&mut self.rng)
+        };
+        VObj {
+            o: Obj {
+                x: clamp_world(near.0 + ox),
+                y: clamp_world(near.1 + oy),
+                vx: pz(vx),
+                vy: pz(vy),
+                aspect,
+                height,
+                angle,
+                conf,
+                hidden: 0,
+                last: None,
+            },
+            base,
+        }
+    }
+
+    /// advances the world of one scene by one call and returns the (shuffled, capped) detections;
+    /// `ghosts` (family D): boxes lately reported in OTHER scenes, re-reported here bit-identically
+    fn emit(&mut self, w: &mut VWorld, ghosts: &[(BoxSpec, Vec<f32>)]) -> Vec<VPreDet> {
+        let long = self.family == VFAM_LONG;
+        let p_hide = match self.family {
+            VFAM_LIFECYCLE | VFAM_CONSTRAINTS => 20,
+            VFAM_LONG => 2,
+            _ => 10,
+        };
+        let mut out: Vec<VPreDet> = vec![];
+        let mut keep: Vec<VObj> = vec![];
+        let objs = std::mem::take(&mut w.objs);
+        for mut vo in objs {
+            if vo.o.hidden > 0 {
+                vo.o.hidden -= 1;
+                bounce(&mut vo.o.x, &mut vo.o.vx);
+                bounce(&mut vo.o.y, &mut vo.o.vy);
+                keep.push(vo);
+                continue;
+            }
+            if self.rng.chance(p_hide, 100) {
+                vo.o.hidden = self.rng.range(1, 4) as u32;
+                bounce(&mut vo.o.x, &mut vo.o.vx);
+                bounce(&mut vo.o.y, &mut vo.o.vy);
+                keep.push(vo);
+                continue;
+            }
+            if !long && self.rng.chance(3, 100) {
+                continue; // vanishes for good
+            }
+            if let Some(lb) = vo.o.last {
+                if self.rng.chance(15, 100) {
+                    let feat = self.feature(&vo.base, false);
+                    let q = self.quality();
+                    out.push(VPreDet { b: lb, force_some: false, q, feat });
+                    keep.push(vo);
+                    continue;
+                }
+            }
+            bounce(&mut vo.o.x, &mut vo.o.vx);
+            bounce(&mut vo.o.y, &mut vo.o.vy);
+            let (jx, jy, jh) = if self.rng.chance(3, 10) {
+                (0.0, 0.0, 0.0)
+            } else {
+                (self.rng.dyadic(-4, 4, 2), self.rng.dyadic(-4, 4, 2), *self.rng.pick(&HEIGHT_JITTER))
+            };
+            let conf = if self.rng.chance(1, 10) {
+                if self.rng.chance(1, 2) {
+                    1.0
+                } else {
+                    *self.rng.pick(&LOW_CONF)
+                }
+            } else {
+                vo.o.conf
+            };
+            let xc = pz(clamp_world(vo.o.x + jx));
+            let yc = pz(clamp_world(vo.o.y + jy));
+            let b = BoxSpec { xc, yc, angle: vo.o.angle, aspect: vo.o.aspect, height: vo.o.height + jh, conf };
+            vo.o.last = Some(b);
+            let feat = self.feature(&vo.base, false);
+            let q = self.quality();
+            out.push(VPreDet { b, force_some: false, q, feat });
+            keep.push(vo);
+        }
+        // arrivals (visible from the next call of this scene on)
+        let p_new = if keep.is_empty() {
+            60
+        } else if long {
+            0
+        } else {
+            10
+        };
+        if keep.len() < MAX_DETS && self.rng.chance(p_new, 100) {
+            let near = *self.rng.pick(&self.anchors.clone());
+            let shared = w.shared.clone();
+            let o = self.spawn(near, &shared);
+            keep.push(o);
+        }
+        w.objs = keep;
+        if !ghosts.is_empty() && self.rng.chance(35, 100) {
+            let (b, base) = ghosts[self.rng.below(ghosts.len() as u64) as usize].clone();
+            let feat = self.feature(&base, false);
+            let q = self.quality();
+            out.push(VPreDet { b, force_some: false, q, feat });
+        }
+        if self.rng.chance(if long { 2 } else { 5 }, 100) {
+            out.clear(); // forced empty predict (on top of the calls where nothing is visible)
+        }
+        if self.family == VFAM_LOOKALIKE && !out.is_empty() && self.rng.chance(25, 100) {
+            // exact duplicate: the bit-identical feature vector twice, same box or one grid step aside
+            let i = self.rng.below(out.len() as u64) as usize;
+            if out[i].feat.is_none() {
+                out[i].feat = Some(w.shared.clone());
+            }
+            out[i].force_some = true;
+            let mut b = out[i].b;
+            if self.rng.chance(1, 2) {
+                if self.rng.chance(1, 2) {
+                    b.xc = if b.xc + GRID > WORLD { b.xc - GRID } else { b.xc + GRID };
+                } else {
+                    b.yc = if b.yc + GRID > WORLD { b.yc - GRID } else { b.yc + GRID };
+                }
+            }
+            let q = out[i].q;
+            let feat = out[i].feat.clone();
+            out.push(VPreDet { b, force_some: true, q, feat });
+        }
+        self.rng.shuffle(&mut out);
+        out.truncate(MAX_DETS);
+        out
+    }
+
+    fn assign(&mut self, pre: Vec<VPreDet>) -> Vec<Det> {
+        let mut res = vec![];
+        for p in pre {
+            let uid = self.next_uid;
+            self.next_uid += 1;
+            let signed = if self.rng.chance(1, 2) { uid as i64 } else { -(uid as i64) };
+            let want_none = !p.force_some && !self.rng.chance(8, 10);
+            let custom = if want_none && self.none_keys.insert(p.b.key()) { None } else { Some(signed) };
+            res.push(Det { uid, b: p.b, custom, vis: Some((p.q, p.feat)) });
+        }
+        res
+    }
+}
+
+fn gen_history_visual(seed: u64, k: usize, thorough: bool) -> String {
+    let base = Rng::new(seed).next();
+    let mut rng = Rng::new(base ^ (k as u64 + 1).wrapping_mul(0xA24BAED4963EE407) ^ 0x5649_5355_414C_5F31);
+    rng.next();
+    let batch = k % 3 == 2;
+    let family = (k as u64 / 3) % 6;
+
+    let shards = rng.range(1, 4);
+    let vshards = rng.range(1, 3);
+    let mut history = rng.range(1, 5);
+    let mut max_idle = rng.range(0, 3);
+    let metric =
+        if rng.chance(6, 10) { format!("iou:{}", f32b(*rng.pick(&IOU_THRESHOLDS))) } else { "maha".to_string() };
+    let vis = if rng.chance(7, 10) {
+        format!("euc:{}", f32b(*rng.pick(&VIS_EUC)))
+    } else {
+        format!("cos:{}", f32b(*rng.pick(&VIS_COS)))
+    };
+    let mut votes = rng.range(1, 2);
+    let mut minlen = rng.range(1, 3);
+    let maxobs = rng.range(2, 5);
+    let mut quse = *rng.pick(&QUSE);
+    let qcol = *rng.pick(&QCOL);
+    // the real metric builder insists on minlen <= maxobs
+    if minlen > maxobs {
+        minlen = maxobs;
+    }
+    match family {
+        VFAM_LOOKALIKE => {
+            // appearance voting is active from the second call on
+            minlen = 1;
+            votes = 1;
+            quse = 0.0;
+        }
+        VFAM_LIFECYCLE => max_idle = rng.range(0, 1),
+        VFAM_LONG => {
+            history = rng.range(1, 2);
+            max_idle = rng.range(1, 3); // with max_idle = 0 no track is ever continued
+        }
+        VFAM_MISSING => quse = 0.3,
+        _ => {}
+    }
+    let constraints = if family == VFAM_CONSTRAINTS || rng.chance(1, 2) {
+        let ncalls = rng.range(1, 2);
+        let mut calls = vec![];
+        for _ in 0..ncalls {
+            let n = rng.range(1, 3);
+            let mut es = vec![];
+            for _ in 0..n {
+                let gap = rng.range(0, 3);
+                let lim = *rng.pick(&LIMITS);
+                es.push(format!("{}:{}", gap, f32b(lim)));
+            }
+            calls.push(es.join(","));
+        }
+        calls.join("|")
+    } else {
+        "-".to_string()
+    };
+    let nscenes = match family {
+        VFAM_CONSTRAINTS => rng.range(2, 3),
+        VFAM_LONG => rng.range(1, 2),
+        _ => rng.range(1, 3),
+    } as usize;
+    let mut ids = V_SCENE_IDS.to_vec();
+    rng.shuffle(&mut ids);
+    ids.truncate(nscenes);
+    let rotated = rng.chance(3, 10);
+    let nanchors = rng.range(2, 4);
+    let mut anchors = vec![];
+    for _ in 0..nanchors {
+        anchors.push((rng.dyadic(240, 1360, 2), rng.dyadic(240, 1360, 2)));
+    }
+    let nops = if thorough { rng.range(10, 40) } else { rng.range(5, 25) } as usize;
+
+    let mut g = VGen { rng, family, rotated, anchors, next_uid: 1, none_keys: HashSet::new() };
+
+    // initial population: all scenes share the same image region (the same anchors); family D: the same objects
+    // (identical positions, sizes and velocities) in every scene
+    let mut worlds: Vec<VWorld> = vec![];
+    for s in &ids {
+        let shared = base_feature(&mut g.rng);
+        let mut objs = vec![];
+        if family == VFAM_CONSTRAINTS && !worlds.is_empty() {
+            objs = worlds[0].objs.clone();
+        } else {
+            let n = match family {
+                VFAM_LOOKALIKE => g.rng.range(3, 5),
+                VFAM_LONG => g.rng.range(1, 3),
+                _ => g.rng.range(1, 5),
+            };
+            for _ in 0..n {
+                let a = *g.rng.pick(&g.anchors.clone());
+                let o = g.spawn(a, &shared);
+                objs.push(o);
+            }
+        }
+        worlds.push(VWorld { scene: *s, objs, shared });
+    }
+
+    let weights = match family {
+        VFAM_LOOKALIKE => W_LOOKALIKE,
+        VFAM_LIFECYCLE => W_LIFECYCLE,
+        VFAM_CONSTRAINTS => W_CONSTRAINTS,
+        VFAM_LONG => W_LONG,
+        VFAM_GENERAL | VFAM_MISSING => W_GENERAL,
+        _ => W_GENERAL,
+    };
+
+    let mut out = String::new();
+    out.push_str(&format!(
+        "hist k={} tracker={} shards={} vshards={} history={} max_idle={} metric={} minconf={} constraints={} vis={} votes={} minlen={} maxobs={} quse={} qcol={}\n",
+        k,
+        if batch { "batchvisual" } else { "visual" },
+        shards,
+        vshards,
+        history,
+        max_idle,
+        metric,
+        f32b(0.05),
+        constraints,
+        vis,
+        votes,
+        minlen,
+        maxobs,
+        f32b(quse),
+        f32b(qcol)
+    ));
+
+    let mut emitted = 0usize;
+    let mut first_predict_done = false;
+    if g.rng.chance(7, 10) {
+        out.push_str(&format!("op setaw p={}\n", g.rng.pick(&AUTO_WASTE)));
+        emitted += 1;
+    }
+    if family == VFAM_LIFECYCLE && !batch && g.rng.chance(1, 2) {
+        // empty predicts while the store is still empty
+        for _ in 0..g.rng.range(1, 2) {
+            let s = worlds[g.rng.below(worlds.len() as u64) as usize].scene;
+            out.push_str(&format!("op predict scene={} dets=\n", s));
+            emitted += 1;
+        }
+    }
+    while emitted < nops {
+        let kind = if !first_predict_done { 0 } else { pick_weighted(&mut g.rng, &weights) };
+        // scene for the scene-addressed non-predict ops: mostly a scene of the history
+        let any_scene = if g.rng.chance(9, 10) {
+            worlds[g.rng.below(worlds.len() as u64) as usize].scene
+        } else {
+            *g.rng.pick(&V_SCENE_IDS)
+        };
+        match kind {
+            0 => {
+                first_predict_done = true;
+                let idx: Vec<usize> = if batch && worlds.len() >= 2 && g.rng.chance(3, 10) {
+                    let m = g.rng.range(2, worlds.len() as i64) as usize;
+                    let mut idx: Vec<usize> = (0..worlds.len()).collect();
+                    g.rng.shuffle(&mut idx);
+                    idx.truncate(m);
+                    idx
+                } else {
+                    vec![]
+                };
+                let ghosts_for = |worlds: &Vec<VWorld>, i: usize| -> Vec<(BoxSpec, Vec<f32>)> {
+                    if family != VFAM_CONSTRAINTS {
+                        return vec![];
+                    }
+                    let mut gs = vec![];
+                    for (j, w) in worlds.iter().enumerate() {
+                        if j != i {
+                            for o in &w.objs {
+                                if let Some(b) = o.o.last {
+                                    gs.push((b, o.base.clone()));
+                                }
+                            }
+                        }
+                    }
+                    gs
+                };
+                if !idx.is_empty() {
+                    let mut parts = vec![];
+                    for i in idx {
+                        let ghosts = ghosts_for(&worlds, i);
+                        let pre = g.emit(&mut worlds[i], &ghosts);
+                        let dets = g.assign(pre);
+                        parts.push(format!("{}@{}", worlds[i].scene, fmt_dets(&dets)));
+                    }
+                    out.push_str(&format!("op batch scenes={}\n", parts.join("|")));
+                } else {
+                    let i = g.rng.below(worlds.len() as u64) as usize;
+                    let ghosts = ghosts_for(&worlds, i);
+                    let pre = g.emit(&mut worlds[i], &ghosts);
+                    let dets = g.assign(pre);
+                    out.push_str(&format!("op predict scene={} dets={}\n", worlds[i].scene, fmt_dets(&dets)));
+                }
+            }
+            1 => out.push_str(&format!("op skip scene={} n={}\n", any_scene, g.rng.range(0, 3))),
+            2 => out.push_str("op wasted\n"),
+            3 => out.push_str(&format!("op idle scene={}\n", any_scene)),
+            4 => out.push_str("op clear\n"),
+            5 => out.push_str(&format!("op setaw p={}\n", g.rng.pick(&AUTO_WASTE))),
+            6 => out.push_str("op astats\n"),
+            7 => out.push_str("op wstats\n"),
+            _ => out.push_str(&format!("op epoch scene={}\n", any_scene)),
+        }
+        emitted += 1;
+    }
+    out.push_str("end\n");
+    out
+}
+
+// ---------------------------------------------------------------------------------------------
 // runner
 // ---------------------------------------------------------------------------------------------
 
@@ -535,8 +1045,20 @@ enum Op {
     Epoch(u64),
 }
 
+/// appearance options of the visual kinds
+struct VisCfg {
+    kind: VisualSortMetricType,
+    votes: usize,
+    minlen: usize,
+    maxobs: usize,
+    quse: f32,
+    qcol: f32,
+}
+
 struct Config {
     batch: bool,
+    /// Some for tracker=visual|batchvisual
+    vis: Option<VisCfg>,
     shards: usize,
     vshards: usize,
     history: usize,
@@ -552,7 +1074,15 @@ fn bits(s: &str) -> f32 {
 
 fn parse_det(s: &str) -> Det {
     let f: Vec<&str> = s.split(':').collect();
-    assert!(f.len() == 8, "bad detection `{}`", s);
+    assert!(f.len() == 8 || f.len() == 10, "bad detection `{}`", s);
+    let vis = if f.len() == 10 {
+        Some((
+            if f[8] == "n" { None } else { Some(bits(f[8])) },
+            if f[9] == "n" { None } else { Some(f[9].split('/').filter(|x| !x.is_empty()).map(bits).collect()) },
+        ))
+    } else {
+        None
+    };
     Det {
         uid: f[0].parse().unwrap(),
         b: BoxSpec {
@@ -564,6 +1094,7 @@ fn parse_det(s: &str) -> Det {
             conf: bits(f[6]),
         },
         custom: if f[7] == "n" { None } else { Some(f[7].parse().unwrap()) },
+        vis,
     }
 }
 
@@ -608,12 +1139,33 @@ fn parse_config(line: &str) -> Config {
                 .collect::<Vec<_>>(),
         )
     };
+    let (batch, visual) = match kv(&toks, "tracker") {
+        "sort" => (false, false),
+        "batch" => (true, false),
+        "visual" => (false, true),
+        "batchvisual" => (true, true),
+        x => panic!("unknown tracker `{}`", x),
+    };
+    let vis = if visual {
+        let (vk, vt) = kv(&toks, "vis").split_once(':').expect("vis=<euc|cos>:<bits>");
+        Some(VisCfg {
+            kind: match vk {
+                "euc" => VisualSortMetricType::Euclidean(bits(vt)),
+                "cos" => VisualSortMetricType::Cosine(bits(vt)),
+                x => panic!("unknown visual metric `{}`", x),
+            },
+            votes: kv(&toks, "votes").parse().unwrap(),
+            minlen: kv(&toks, "minlen").parse().unwrap(),
+            maxobs: kv(&toks, "maxobs").parse().unwrap(),
+            quse: bits(kv(&toks, "quse")),
+            qcol: bits(kv(&toks, "qcol")),
+        })
+    } else {
+        None
+    };
     Config {
-        batch: match kv(&toks, "tracker") {
-            "sort" => false,
-            "batch" => true,
-            x => panic!("unknown tracker `{}`", x),
-        },
+        batch,
+        vis,
         shards: kv(&toks, "shards").parse().unwrap(),
         vshards: kv(&toks, "vshards").parse().unwrap(),
         history: kv(&toks, "history").parse().unwrap(),
@@ -655,7 +1207,78 @@ enum Trk {
     B(BatchSort),
 }
 
-impl Trk {
+enum VTrk {
+    V(VisualSort),
+    B(BatchVisualSort),
+}
+
+/// what the field accessors of the two attribute types have in common
+trait AttrView {
+    fn v_scene(&self) -> u64;
+    fn v_epoch(&self) -> usize;
+    fn v_len(&self) -> usize;
+    fn v_custom(&self) -> Option<i64>;
+    fn v_observed(&self) -> &VecDeque<Universal2DBox>;
+    fn v_npred(&self) -> usize;
+}
+
+macro_rules! attr_view {
+    ($t:ty) => {
+        impl AttrView for $t {
+            fn v_scene(&self) -> u64 {
+                self.scene_id
+            }
+            fn v_epoch(&self) -> usize {
+                self.last_updated_epoch
+            }
+            fn v_len(&self) -> usize {
+                self.track_length
+            }
+            fn v_custom(&self) -> Option<i64> {
+                self.custom_object_id
+            }
+            fn v_observed(&self) -> &VecDeque<Universal2DBox> {
+                &self.observed_boxes
+            }
+            fn v_npred(&self) -> usize {
+                self.predicted_boxes.len()
+            }
+        }
+    };
+}
+attr_view!(SortAttributes);
+attr_view!(VisualAttributes);
+
+/// the four trackers behind one face: everything else goes through the crate's own TrackerAPI trait
+trait Driver {
+    type TA: TrackAttributes<Self::TA, Self::OA> + AttrView;
+    type M: ObservationMetric<Self::TA, Self::OA>;
+    type OA: ObservationAttributes;
+    /// one detection in the form the tracker takes it
+    type In;
+    /// may panic (box construction): call it guarded
+    fn make_in(d: &Det) -> Self::In;
+    fn api(&self) -> &DynApi<Self::TA, Self::M, Self::OA>;
+    fn api_mut(&mut self) -> &mut DynApi<Self::TA, Self::M, Self::OA>;
+    fn is_batch(&self) -> bool;
+    fn batch_name() -> &'static str;
+    /// oracle table lines for the detections of one scene (read-only with respect to the tracker)
+    fn table(&self, c: &Config, scene: u64, dets: &[Det], ins: &[Self::In]) -> Vec<String>;
+    /// the call of the simple API itself (not guarded)
+    fn predict_simple(&mut self, scene: u64, ins: &[Self::In]) -> Vec<SortTrack>;
+    /// one request of the batch API, all results collected (guarded inside)
+    fn predict_batch(&mut self, scenes: &[(u64, Vec<Self::In>)]) -> Option<HashMap<u64, Vec<SortTrack>>>;
+    fn idle(&mut self, scene: u64) -> Vec<SortTrack>;
+}
+
+impl Driver for Trk {
+    type TA = SortAttributes;
+    type M = SortMetric;
+    type OA = Universal2DBox;
+    type In = (Universal2DBox, Option<i64>);
+    fn make_in(d: &Det) -> Self::In {
+        (d.b.to_box(), d.custom)
+    }
     fn api(&self) -> &Api {
         match self {
             Trk::S(s) => s,
@@ -668,16 +1291,173 @@ impl Trk {
             Trk::B(b) => b,
         }
     }
+    fn is_batch(&self) -> bool {
+        matches!(self, Trk::B(_))
+    }
+    fn batch_name() -> &'static str {
+        "batch"
+    }
+    fn table(&self, c: &Config, scene: u64, dets: &[Det], ins: &[Self::In]) -> Vec<String> {
+        table(self.api(), c, scene, dets, ins)
+    }
+    fn predict_simple(&mut self, scene: u64, ins: &[Self::In]) -> Vec<SortTrack> {
+        match self {
+            Trk::S(s) => s.predict_with_scene(scene, ins),
+            Trk::B(_) => unreachable!(),
+        }
+    }
+    fn predict_batch(&mut self, scenes: &[(u64, Vec<Self::In>)]) -> Option<HashMap<u64, Vec<SortTrack>>> {
+        match self {
+            Trk::B(b) => batch_predict(b, scenes),
+            Trk::S(_) => unreachable!(),
+        }
+    }
+    fn idle(&mut self, scene: u64) -> Vec<SortTrack> {
+        match self {
+            Trk::S(s) => s.idle_tracks_with_scene(scene),
+            Trk::B(b) => b.idle_tracks_with_scene(scene),
+        }
+    }
 }
 
-fn build_tracker(c: &Config) -> Trk {
-    let constraints = c.constraints.as_ref().map(|calls| {
+/// one detection as the visual trackers take it
+struct VisIn {
+    bbox: Universal2DBox,
+    custom: Option<i64>,
+    q: Option<f32>,
+    feat: Option<Vec<f32>>,
+}
+
+fn vis_obs(ins: &[VisIn]) -> Vec<VisualSortObservation<'_>> {
+    ins.iter().map(|e| VisualSortObservation::new(e.feat.as_deref(), e.q, e.bbox.clone(), e.custom)).collect()
+}
+
+impl Driver for VTrk {
+    type TA = VisualAttributes;
+    type M = VisualMetric;
+    type OA = VisualObservationAttributes;
+    type In = VisIn;
+    fn make_in(d: &Det) -> Self::In {
+        let (q, feat) = d.vis.clone().unwrap_or((None, None));
+        VisIn { bbox: d.b.to_box(), custom: d.custom, q, feat }
+    }
+    fn api(&self) -> &VApi {
+        match self {
+            VTrk::V(s) => s,
+            VTrk::B(b) => b,
+        }
+    }
+    fn api_mut(&mut self) -> &mut VApi {
+        match self {
+            VTrk::V(s) => s,
+            VTrk::B(b) => b,
+        }
+    }
+    fn is_batch(&self) -> bool {
+        matches!(self, VTrk::B(_))
+    }
+    fn batch_name() -> &'static str {
+        "batchvisual"
+    }
+    fn table(&self, c: &Config, scene: u64, dets: &[Det], ins: &[Self::In]) -> Vec<String> {
+        vtable(self.api(), c, scene, dets, ins)
+    }
+    fn predict_simple(&mut self, scene: u64, ins: &[Self::In]) -> Vec<SortTrack> {
+        match self {
+            VTrk::V(s) => s.predict_with_scene(scene, &vis_obs(ins)),
+            VTrk::B(_) => unreachable!(),
+        }
+    }
+    fn predict_batch(&mut self, scenes: &[(u64, Vec<Self::In>)]) -> Option<HashMap<u64, Vec<SortTrack>>> {
+        let b = match self {
+            VTrk::B(b) => b,
+            VTrk::V(_) => unreachable!(),
+        };
+        guarded(|| {
+            let (mut req, res) = PredictionBatchRequest::<VisualSortObservation>::new();
+            for (s, ins) in scenes {
+                for o in vis_obs(ins) {
+                    req.add(*s, o);
+                }
+            }
+            let n = req.batch_size();
+            b.predict(req);
+            let mut m: HashMap<u64, Vec<SortTrack>> = HashMap::new();
+            for _ in 0..n {
+                let (s, ts) = res.get();
+                m.entry(s).or_default().extend(ts);
+            }
+            m
+        })
+    }
+    fn idle(&mut self, scene: u64) -> Vec<SortTrack> {
+        match self {
+            VTrk::V(s) => s.idle_tracks_with_scene(scene),
+            VTrk::B(b) => b.idle_tracks_with_scene(scene),
+        }
+    }
+}
+
+fn build_constraints(c: &Config) -> Option<SpatioTemporalConstraints> {
+    c.constraints.as_ref().map(|calls| {
         let mut stc = SpatioTemporalConstraints::default();
         for call in calls {
             stc.add_constraints(call.clone());
         }
         stc
-    });
+    })
+}
+
+fn build_visual_tracker(c: &Config) -> VTrk {
+    let v = c.vis.as_ref().expect("visual options");
+    let base = match build_constraints(c) {
+        Some(stc) => VisualSortOptions::default().spatio_temporal_constraints(stc),
+        None => VisualSortOptions::default(),
+    };
+    // the own-area thresholds stay 0: the polygon clipping behind them panics on some boxes
+    let opts = base
+        .max_idle_epochs(c.max_idle)
+        .kept_history_length(c.history)
+        .visual_metric(v.kind)
+        .positional_metric(c.method)
+        .positional_min_confidence(c.minconf)
+        .visual_max_observations(v.maxobs)
+        .visual_minimal_track_length(v.minlen)
+        .visual_min_votes(v.votes)
+        .visual_minimal_area(0.0)
+        .visual_minimal_quality_use(v.quse)
+        .visual_minimal_quality_collect(v.qcol)
+        .visual_minimal_own_area_percentage_use(0.0)
+        .visual_minimal_own_area_percentage_collect(0.0);
+    if c.batch {
+        VTrk::B(BatchVisualSort::new(c.shards, c.vshards, &opts))
+    } else {
+        VTrk::V(VisualSort::new(c.shards, &opts))
+    }
+}
+
+/// the tracker's own metric, rebuilt from the same options (`VisualSortOptions::build` is crate-private)
+fn visual_metric(c: &Config) -> VisualMetric {
+    let v = c.vis.as_ref().expect("visual options");
+    VisualMetric {
+        opts: Arc::new(VisualMetricOptions {
+            visual_max_observations: v.maxobs,
+            visual_min_votes: v.votes,
+            visual_kind: v.kind,
+            positional_kind: c.method,
+            visual_minimal_track_length: v.minlen,
+            visual_minimal_area: 0.0,
+            visual_minimal_quality_use: v.quse,
+            visual_minimal_quality_collect: v.qcol,
+            visual_minimal_own_area_percentage_use: 0.0,
+            visual_minimal_own_area_percentage_collect: 0.0,
+            positional_min_confidence: c.minconf,
+        }),
+    }
+}
+
+fn build_tracker(c: &Config) -> Trk {
+    let constraints = build_constraints(c);
     if c.batch {
         Trk::B(BatchSort::new(
             c.shards,
@@ -727,18 +1507,23 @@ fn fmt_recs(ts: &[SortTrack], cls: &Classes) -> String {
     ts.iter().map(|t| fmt_rec(t, cls)).collect::<Vec<_>>().join(";")
 }
 
-fn fmt_trk(t: &STrack, cls: &Classes) -> String {
+fn fmt_trk<TA, M, OA>(t: &Track<TA, M, OA, NoopNotifier>, cls: &Classes) -> String
+where
+    TA: TrackAttributes<TA, OA> + AttrView,
+    M: ObservationMetric<TA, OA>,
+    OA: ObservationAttributes,
+{
     let a = t.get_attributes();
-    let obs = a.observed_boxes.iter().map(|b| cls.of(b).to_string()).collect::<Vec<_>>().join("/");
+    let obs = a.v_observed().iter().map(|b| cls.of(b).to_string()).collect::<Vec<_>>().join("/");
     format!(
         "{},{},{},{},{},{},{}",
         t.get_track_id(),
-        a.scene_id,
-        a.last_updated_epoch,
-        a.track_length,
-        fmt_custom(a.custom_object_id),
+        a.v_scene(),
+        a.v_epoch(),
+        a.v_len(),
+        fmt_custom(a.v_custom()),
         obs,
-        a.predicted_boxes.len()
+        a.v_npred()
     )
 }
 
@@ -751,9 +1536,14 @@ fn line(prefix: &str, body: String) -> String {
 }
 
 /// copies of all the tracks of the main store, sorted by id
-fn main_tracks(api: &Api, shards: usize) -> Vec<STrack> {
+fn main_tracks<TA, M, OA>(api: &DynApi<TA, M, OA>, shards: usize) -> Vec<Track<TA, M, OA, NoopNotifier>>
+where
+    TA: TrackAttributes<TA, OA>,
+    M: ObservationMetric<TA, OA>,
+    OA: ObservationAttributes,
+{
     let store = api.get_main_store();
-    let mut ts: Vec<STrack> = vec![];
+    let mut ts: Vec<Track<TA, M, OA, NoopNotifier>> = vec![];
     for k in 0..shards {
         let g = store.get_store(k);
         ts.extend(g.values().cloned());
@@ -763,9 +1553,14 @@ fn main_tracks(api: &Api, shards: usize) -> Vec<STrack> {
     ts
 }
 
-fn wasted_tracks(api: &Api, shards: usize) -> Vec<STrack> {
+fn wasted_tracks<TA, M, OA>(api: &DynApi<TA, M, OA>, shards: usize) -> Vec<Track<TA, M, OA, NoopNotifier>>
+where
+    TA: TrackAttributes<TA, OA>,
+    M: ObservationMetric<TA, OA>,
+    OA: ObservationAttributes,
+{
     let store = api.get_wasted_store();
-    let mut ts: Vec<STrack> = vec![];
+    let mut ts: Vec<Track<TA, M, OA, NoopNotifier>> = vec![];
     for k in 0..shards {
         let g = store.get_store(k);
         ts.extend(g.values().cloned());
@@ -836,6 +1631,82 @@ fn table(api: &Api, c: &Config, scene: u64, dets: &[Det], boxes: &[(Universal2DB
     lines
 }
 
+/// oracle table of the visual kinds: the candidate is built exactly as `predict_with_scene` builds it and the
+/// tracker's own metric is asked about EVERY class-0 observation of every stored track
+fn vtable(api: &VApi, c: &Config, scene: u64, dets: &[Det], ins: &[VisIn]) -> Vec<String> {
+    let epoch = api.current_epoch_with_scene(scene) + 1;
+    let tracks = main_tracks(api, c.shards);
+    let metric = visual_metric(c);
+    let mut lines = vec![];
+    for (i, (d, e)) in dets.iter().zip(ins.iter()).enumerate() {
+        let cand = guarded(|| {
+            let store = api.get_main_store();
+            let mut ob = ObservationBuilder::new(0)
+                .observation_attributes(VisualObservationAttributes::new(e.q.unwrap_or(1.0), e.bbox.clone()));
+            if let Some(f) = &e.feat {
+                ob = ob.observation(Feature::from_vec(f.to_vec()));
+            }
+            store
+                .new_track(u64::MAX - i as u64)
+                .observation(
+                    ob.track_attributes_update(VisualAttributesUpdate::new_init_with_scene(epoch, scene, e.custom))
+                        .build(),
+                )
+                .build()
+                .unwrap()
+        });
+        let cand: VTrack = match cand {
+            Some(c) => c,
+            None => {
+                lines.push(format!("tab {} p", d.uid));
+                continue;
+            }
+        };
+        let mut entries = vec![];
+        for t in &tracks {
+            let r = guarded(|| {
+                let co = &cand.get_observations(0).unwrap()[0];
+                let none = vec![];
+                let tos = t.get_observations(0).unwrap_or(&none);
+                let mut w: Option<i64> = None;
+                let mut visual = false;
+                for to in tos.iter() {
+                    let mq = MetricQuery {
+                        feature_class: 0,
+                        candidate_attrs: cand.get_attributes(),
+                        candidate_observation: co,
+                        track_attrs: t.get_attributes(),
+                        track_observation: to,
+                    };
+                    if let Some((pos, vis)) = metric.metric(&mq) {
+                        if w.is_none() {
+                            if let Some(x) = pos {
+                                w = Some((x * 1_000_000.0f32) as i64);
+                            }
+                        }
+                        if vis.is_some() {
+                            visual = true;
+                        }
+                    }
+                }
+                let d2r = Universal2DBox::dist_in_2r(
+                    cand.get_attributes().predicted_boxes.back().unwrap(),
+                    t.get_attributes().predicted_boxes.back().unwrap(),
+                );
+                (w, visual, d2r)
+            });
+            entries.push(match r {
+                None => format!("{},p,p", t.get_track_id()),
+                Some((Some(w), _, d2r)) => format!("{},{},{}", t.get_track_id(), w, f32b(d2r)),
+                Some((None, true, d2r)) => format!("{},v,{}", t.get_track_id(), f32b(d2r)),
+                Some((None, false, d2r)) => format!("{},n,{}", t.get_track_id(), f32b(d2r)),
+            });
+        }
+        lines.push(line(&format!("tab {}", d.uid), entries.join(" ")));
+    }
+    lines
+}
+
 static TICK: AtomicU64 = AtomicU64::new(0);
 
 fn tick() {
@@ -892,14 +1763,26 @@ fn run_history(hist: &str, ops: &[String]) {
     let c = parse_config(hist);
     let parsed: Vec<Op> = ops.iter().map(|t| parse_op(t)).collect();
     tick();
-    let mut trk = match guarded(|| build_tracker(&c)) {
-        Some(t) => t,
-        None => {
-            println!("res panic");
-            println!("end");
-            return;
+    if c.vis.is_some() {
+        match guarded(|| build_visual_tracker(&c)) {
+            Some(t) => run_ops(&c, ops, &parsed, t),
+            None => {
+                println!("res panic");
+                println!("end");
+            }
         }
-    };
+    } else {
+        match guarded(|| build_tracker(&c)) {
+            Some(t) => run_ops(&c, ops, &parsed, t),
+            None => {
+                println!("res panic");
+                println!("end");
+            }
+        }
+    }
+}
+
+fn run_ops<D: Driver>(c: &Config, ops: &[String], parsed: &[Op], mut trk: D) {
     let mut cls = Classes(HashMap::new());
     let mut dead = false;
     for (i, (text, op)) in ops.iter().zip(parsed.iter()).enumerate() {
@@ -909,19 +1792,20 @@ fn run_history(hist: &str, ops: &[String]) {
         let res: Option<String> = match op {
             Op::Predict(scene, dets) => {
                 cls.register(dets);
-                match guarded(|| dets.iter().map(|d| (d.b.to_box(), d.custom)).collect::<Vec<_>>()) {
+                match guarded(|| dets.iter().map(D::make_in).collect::<Vec<_>>()) {
                     None => None,
-                    Some(boxes) => {
-                        for l in table(trk.api(), &c, *scene, dets, &boxes) {
+                    Some(ins) => {
+                        for l in trk.table(c, *scene, dets, &ins) {
                             println!("{}", l);
                         }
                         tick();
-                        match &mut trk {
-                            Trk::S(s) => guarded(|| s.predict_with_scene(*scene, &boxes))
-                                .map(|r| line("res records", fmt_recs(&r, &cls))),
-                            Trk::B(b) => batch_predict(b, &[(*scene, boxes)]).map(|m| {
+                        if trk.is_batch() {
+                            trk.predict_batch(&[(*scene, ins)]).map(|m| {
                                 line("res records", m.get(scene).map(|r| fmt_recs(r, &cls)).unwrap_or_default())
-                            }),
+                            })
+                        } else {
+                            guarded(|| trk.predict_simple(*scene, &ins))
+                                .map(|r| line("res records", fmt_recs(&r, &cls)))
                         }
                     }
                 }
@@ -933,19 +1817,22 @@ fn run_history(hist: &str, ops: &[String]) {
                 let built = guarded(|| {
                     scenes
                         .iter()
-                        .map(|(s, dets)| (*s, dets.iter().map(|d| (d.b.to_box(), d.custom)).collect::<Vec<_>>()))
+                        .map(|(s, dets)| (*s, dets.iter().map(D::make_in).collect::<Vec<_>>()))
                         .collect::<Vec<_>>()
                 });
-                match (built, &mut trk) {
-                    (Some(built), Trk::B(b)) => {
-                        for ((s, dets), (_, boxes)) in scenes.iter().zip(built.iter()) {
-                            let api: &Api = &*b;
-                            for l in table(api, &c, *s, dets, boxes) {
+                match built {
+                    Some(built) => {
+                        if !trk.is_batch() {
+                            eprintln!("`op batch` needs tracker={}", D::batch_name());
+                            std::process::exit(2);
+                        }
+                        for ((s, dets), (_, ins)) in scenes.iter().zip(built.iter()) {
+                            for l in trk.table(c, *s, dets, ins) {
                                 println!("{}", l);
                             }
                         }
                         tick();
-                        batch_predict(b, &built).map(|m| {
+                        trk.predict_batch(&built).map(|m| {
                             let parts = scenes
                                 .iter()
                                 .map(|(s, _)| {
@@ -955,11 +1842,7 @@ fn run_history(hist: &str, ops: &[String]) {
                             line("res batch", parts.join("|"))
                         })
                     }
-                    (Some(_), Trk::S(_)) => {
-                        eprintln!("`op batch` needs tracker=batch");
-                        std::process::exit(2);
-                    }
-                    (None, _) => None,
+                    None => None,
                 }
             }
             Op::Skip(scene, n) => guarded(|| trk.api_mut().skip_epochs_for_scene(*scene, *n)).map(|_| "res unit".into()),
@@ -967,11 +1850,7 @@ fn run_history(hist: &str, ops: &[String]) {
                 ts.sort_by_key(|t| t.get_track_id());
                 line("res wasted", ts.iter().map(|t| fmt_trk(t, &cls)).collect::<Vec<_>>().join(";"))
             }),
-            Op::Idle(scene) => guarded(|| match &mut trk {
-                Trk::S(s) => s.idle_tracks_with_scene(*scene),
-                Trk::B(b) => b.idle_tracks_with_scene(*scene),
-            })
-            .map(|mut ts| {
+            Op::Idle(scene) => guarded(|| trk.idle(*scene)).map(|mut ts| {
                 ts.sort_by_key(|t| t.id);
                 line("res idle", fmt_recs(&ts, &cls))
             }),
@@ -1030,9 +1909,25 @@ fn main() {
     match a.cmd.as_str() {
         "gen" => {
             let thorough = a.tier == "thorough";
+            let kinds = match a.rest.iter().position(|x| x == "--kinds") {
+                None => "sort".to_string(),
+                Some(i) => a.rest.get(i + 1).cloned().unwrap_or_default(),
+            };
+            let visual = match kinds.as_str() {
+                "sort" => false,
+                "visual" => true,
+                x => {
+                    eprintln!("unknown --kinds `{}` (sort|visual)", x);
+                    std::process::exit(2);
+                }
+            };
             let mut out = String::new();
             for k in 0..a.n {
-                out.push_str(&gen_history(a.seed, k, thorough));
+                if visual {
+                    out.push_str(&gen_history_visual(a.seed, k, thorough));
+                } else {
+                    out.push_str(&gen_history(a.seed, k, thorough));
+                }
             }
             print!("{}", out);
         }
@@ -1060,7 +1955,9 @@ fn main() {
             }
         }
         _ => {
-            eprintln!("usage: tracker gen --seed S --n N [--tier quick|thorough] | tracker run --file F");
+            eprintln!(
+                "usage: tracker gen --seed S --n N [--tier quick|thorough] [--kinds sort|visual] | tracker run --file F"
+            );
             std::process::exit(2);
         }
     }
